@@ -588,6 +588,11 @@ def any_(it, l):
         if it.op == "iter" and it.a[0].op == "collect":
             it = it.a[0].a[0]
             continue
+        if it.op == "iter" and it.a[0].op == "push":
+            return or_(any_(mk("iter", it.a[0].a[0]), l), apply_lam(l, [it.a[0].a[1]]))
+        if it.op == "iter" and it.a[0].op == "ite":
+            c = it.a[0]
+            return ite(c.a[0], any_(mk("iter", c.a[1]), l), any_(mk("iter", c.a[2]), l))
         if it.op == "iter" and it.a[0].op == "retain":
             l = lam_and(it.a[0].a[1], l)
             it = mk("iter", it.a[0].a[0])
